@@ -228,11 +228,15 @@ class Package:
                 from .canon import canonicalise
                 tree = canonicalise(tree)
             if os.environ.get("VERIF_NO_CONSTS") != "1":
-                from .consts import inline_private_constants
-                tree = inline_private_constants(tree)
+                from .consts import inline_private_constants, unroll_constant_loops
+                tree = unroll_constant_loops(inline_private_constants(tree))
             if os.environ.get("VERIF_NO_HELPER_INLINING") != "1":
                 from .helpers import expand_new_private_helpers
                 tree = expand_new_private_helpers(tree, fn[:-3])
+                if os.environ.get("VERIF_NO_CANON") != "1":
+                    # (what an expansion brings in - `if not <flag argument>:` with the argument substituted - is oriented too)
+                    from .canon import canonicalise
+                    tree = canonicalise(tree)
             if os.environ.get("VERIF_NO_FOLD") != "1":
                 from .fold import fold_new_temporaries
                 tree = fold_new_temporaries(tree, fn[:-3])
